@@ -197,8 +197,9 @@ class XRef(xpref.Ref):
     def fn(self, name, args, n, pos, size):
         if name in ("position", "last") and self.at_initial and n == 0 and pos == 1 and size == 1:
             # class of a known deviation: position()/last() in the template instantiated for the initial
-            # node list (5.1: "a list containing just the root node")
-            self.interp.flags["initial_position"] = self.interp.flags.get("initial_position", 0) + 1
+            # node list (5.1: "a list containing just the root node") / in a top-level variable (11.4)
+            k = "initial_position" if self.at_initial == "t" else "global_position"
+            self.interp.flags[k] = self.interp.flags.get(k, 0) + 1
         if name == "current":
             return [self.current]
         if name == "key":
@@ -259,6 +260,7 @@ class Interp:
         self.insts = []          # binding instances: parts = [str | ("use", idx)] or None
         self.eids = {}
         self.initial_cx = tuple([0, 1, 1])
+        self.global_cx = tuple([0, 1, 1])
         self.load(sheet)
 
     # ---- stylesheet loading: import precedence (2.6.2), includes (2.6.1) ----
@@ -356,7 +358,7 @@ class Interp:
         saved = (self.ref.vars, self.ref.current, self.ref.at_initial)
         self.ref.vars = _Env(self, env)
         self.ref.current = node
-        self.ref.at_initial = cx is self.initial_cx
+        self.ref.at_initial = "t" if cx is self.initial_cx else ("g" if cx is self.global_cx else False)
         try:
             return self.ref.ev(e, node, pos, size)
         finally:
@@ -376,7 +378,7 @@ class Interp:
             self.flags["global_rtf_built_in_text_only_context"] = 1
         saved_to, self.text_only = self.text_only, 0
         try:
-            v = self.vdef_value(self.globals[name][2], self.initial_cx, {})
+            v = self.vdef_value(self.globals[name][2], self.global_cx, {})
         finally:
             self.text_only = saved_to
         self.gbusy.discard(name)
